@@ -1771,7 +1771,12 @@ class RepeatingEngine(Engine):
                         isNewOutput = self.job.producersHaveOutputSinceDate(self.lastLaunched)
                     else:
                         time_waiting = (datetime.datetime.now() - self.lastLaunched).total_seconds()
-                        if time_waiting > 20.0:
+                        if self._stateDict['numberTaskLaunches'] == 0:
+                            # The producers are finished and I have never launched a task: whatever output they
+                            # left is new to me, even if it is older than my own creation date (lastLaunched)
+                            self.log.log(19, "All of my producers are done and I have not executed yet")
+                            isNewOutput = True
+                        elif time_waiting > 20.0:
                             # VV: FIXME We should consult the graph to figure out whether the producers have
                             #     finished rstage-outing their output files.
                             self.log.log(19, "I have waited for too long for my Finished producers to produce output")
